@@ -23,6 +23,8 @@ FAMILY = {
                Kinds='{"slice", "flip", "leaf", "kid"}', Types1='{"x"}', Kinds1='{"leaf"}'),
     # three hits, two value kinds (small enough to export for the quick replays)
     "t3s": dict(L0=3, L1=1, N0=3, N1=0, Ks="{1, 2}", Types='{"", "x"}', Kinds='{"slice", "leaf"}', Types1='{"x"}', Kinds1='{"leaf"}'),
+    # four hits, none starting at offset 0 (nested contexts around a decoded hit with a raw hit inside it, ...)
+    "n4": dict(L0=3, L1=1, N0=4, N1=0, Ks="{2}", Types='{"x", "y"}', Kinds='{"slice", "leaf"}', Types1='{"x"}', Kinds1='{"leaf"}', MinStart=1),
     # four-byte input (ten spans), two hits
     "t4": dict(L0=4, L1=2, N0=2, N1=1, Ks="<- K_m1_2_4", Types='{"", "x"}',
                Kinds='{"slice", "target", "leaf", "self"}', Types1='{"x"}', Kinds1='{"slice", "leaf"}'),
@@ -41,8 +43,9 @@ def family_cfg(name: str, variant: str = "fixed", invariants=None, liveness=True
     c = FAMILY[name]
     lines = ["CONSTANTS"]
     for k, v in c.items():
-        lines.append(f" {k} {v}" if str(v).startswith("<-") else f" {k} = {v}")
-    lines += [f" Slack = {slack}", f' Variant = "{variant}"', " WK <- GenK", " WTexts <- GenTexts", " WHits <- GenHits", " NWorlds <- GenN"]
+        if k != "MinStart":
+            lines.append(f" {k} {v}" if str(v).startswith("<-") else f" {k} = {v}")
+    lines += [f" MinStart = {c.get('MinStart', 0)}", f" Slack = {slack}", f' Variant = "{variant}"', " WK <- GenK", " WTexts <- GenTexts", " WHits <- GenHits", " NWorlds <- GenN"]
     if gen:
         lines += ["INIT Init", "NEXT Next"]
     else:
